@@ -509,7 +509,7 @@ def run(ctx):
         "without repetition (exactB_iff, strictB_iff); that hypothesis is decided by the driver on every call "
         "(nodupB, nodupB_iff) and a repetition would be reported as a harness error; the literal `countSel` is still "
         "evaluated on sampled targets and non-targets as a redundant cross-check"]
-    n = ctx.scale(1500, 20000)
+    n = ctx.scale(1500, 30000)
     nreg = ctx.scale(3000, 0)
     if ctx.extended:
         n *= 4
